@@ -1,7 +1,7 @@
 (* Single entry point of all executable models:
    run_model id params rows  — ids are the property numbers / sub-models. *)
 Require Import Verif.common.Prelude.
-Require Import Verif.model.Vec Verif.model.Arc Verif.model.IntResult Verif.model.CStr Verif.model.Callback Verif.model.Slice Verif.model.Waker Verif.model.CView Verif.model.Glue Verif.model.Life Verif.model.Group Verif.model.LayoutCheck Verif.model.Bindgen Verif.model.BindgenHeader Verif.model.XMod.
+Require Import Verif.model.Vec Verif.model.Arc Verif.model.IntResult Verif.model.CStr Verif.model.Callback Verif.model.Slice Verif.model.Waker Verif.model.CView Verif.model.Glue Verif.model.Life Verif.model.Group Verif.model.LayoutCheck Verif.model.Bindgen Verif.model.BindgenHeader Verif.model.XMod Verif.model.Boxed.
 
 Definition run_model (m : Z) (params : list Z) (rows : list (list Z)) : list (list Z) :=
   match m with
@@ -19,6 +19,7 @@ Definition run_model (m : Z) (params : list Z) (rows : list (list Z)) : list (li
   | 18%Z => run_cli params rows
   | 19%Z => run_waker params rows
   | 20%Z => run_layoutcheck params rows
+  | 21%Z => run_boxed params rows
   | 103%Z => run_ffi params rows
   | 106%Z => run_life params rows
   | 108%Z => run_casts params rows
